@@ -11,7 +11,10 @@ from .. import models as M
 from .. import values as V
 from . import common
 
-RULE = ("totality: repr() of vectors and tables of every dtype with None, NaN, +-inf, -0.0, 1e300, empty, 10^4 elements, 200-character / multi-line / "
+from . import recompute
+
+RULE = ("[plus the shared recompute-after-history monitor: this property's operations evaluated on long-lived objects between in-place writes / renames must equal the same operations on fresh objects rebuilt from the current contents] "
+	"totality: repr() of vectors and tables of every dtype with None, NaN, +-inf, -0.0, 1e300, empty, 10^4 elements, 200-character / multi-line / "
 	"'...' strings, nested and unhashable elements, 0-25 columns, odd names, zero-row tables, plus (as a universal observer) every result produced by "
 	"the workloads of the arithmetic, join, aggregate, sort and CSV checks, must return a str and leave the object's snapshot unchanged. "
 	"truthfulness: for set_repr_rows in {default, 2, 4, 6, 20} and per-table overrides, lengths limit-2..limit+3, widths 1-12 (around the 10-column "
@@ -26,7 +29,7 @@ ASSUMPTIONS = [
 ]
 EXHAUSTIVE = {"flag": False, "scope": "length x limit x width grid is complete for the listed values; cell values sampled"}
 ANCHOR_FUNCS = ["display:_format_column", "display:_footer", "display:_repr_vector", "display:_repr_table", "display:set_repr_rows"]
-REQUIRED_STRATA = {"total": 200, "vector-truth": 300, "table-truth": 300, "foreign-total": 300}
+REQUIRED_STRATA = {"recompute": 200, "total": 200, "vector-truth": 300, "table-truth": 300, "foreign-total": 300}
 
 VEC_FOOT = re.compile(r"^# (\d+) element vector <(.+)>$")
 TAB_FOOT = re.compile(r"^# (\d+)×(\d+) table(?: <(.*)>)?$")
@@ -67,6 +70,30 @@ def total(chk, obj, origin=""):
 
 def setup_limits(spec):
 	display.set_repr_rows(spec.get("limit"))
+	pol = spec.get("polluter")
+	# an earlier repr of some OTHER object must not leave state behind that changes this one
+	if pol == "empty-peek":
+		call(lambda: repr(Table().peek()))
+	elif pol == "zero-col-override":
+		def f():
+			t0 = Table(())
+			t0._repr_rows = 4
+			return repr(t0)
+		call(f)
+	elif pol == "table-override":
+		def g():
+			t1 = Table([Vector(list(range(30)), name="a")])
+			t1._repr_rows = 2
+			return repr(t1)
+		call(g)
+	elif pol == "vector-long":
+		call(lambda: repr(Vector(list(range(50)))))
+	elif pol == "failing":
+		class Bad:
+			def __str__(self):
+				raise RuntimeError("bad element")
+			__repr__ = __str__
+		call(lambda: repr(Vector([Bad(), Bad()])))
 
 
 def effective_k(spec, table_override=None):
@@ -309,6 +336,7 @@ def run_total(chk, spec):
 
 
 RUNNERS = {"vector_truth": run_vector_truth, "table_truth": run_table_truth, "total": run_total}
+RUNNERS["recompute"] = recompute.runner("C20")
 
 SIMPLE = {
 	"int": [0, 1, -1, 25, 1000, -37],
@@ -335,6 +363,7 @@ NAMES_ODD = [None, "", "a b", "sum", "1st", "é", "...", "Total $", "x" * 60, "a
 
 
 def run(chk):
+	recompute.add_cases(chk, "C20")
 	rng = chk.rng
 	chk.observers.append(total)
 	limits = [None, 2, 4, 6, 20] + ([] if chk.quick() else [3, 7, 13])
@@ -352,7 +381,8 @@ def run(chk):
 					if kind == "int" and n > 1 and rng.random() < 0.3:
 						vals[1] = 2.5 if vals[1] is not None else None     # promoted column: ints inside a float vector
 					name = rng.choice([None, None, "nm", "Value", "sum", "a b"])
-					chk.case("vector_truth", {"values": vals, "name": name, "limit": limit, "kind": kind}, "vector-truth")
+					chk.case("vector_truth", {"values": vals, "name": name, "limit": limit, "kind": kind,
+						"polluter": rng.choice([None, None, "empty-peek", "zero-col-override", "table-override", "vector-long", "failing"])}, "vector-truth")
 	# ---- truthfulness: tables
 	for limit in limits:
 		for override in (None, None, 4, 8):
@@ -392,7 +422,7 @@ def run(chk):
 					else:
 						names = [None] * ncols
 					chk.case("table_truth", {"names": names, "cols": cols, "limit": limit, "override": override, "simple": True,
-						"namepat": namepat, "dtpat": dtpat}, "table-truth")
+						"namepat": namepat, "dtpat": dtpat, "polluter": rng.choice([None, None, "empty-peek", "zero-col-override", "table-override", "vector-long", "failing"])}, "table-truth")
 	# ---- totality
 	for kind, pool in HOSTILE.items():
 		for n in (1, 2, 5, 13, 30):
